@@ -160,3 +160,92 @@ func verifC14DirSingleSyscall() {
 	verifAssert("dir/no-go-level-shared-state", verifAnd(verifProtected() == 0, verifUnprotected() == 0))
 	verifCover("c14/dir")
 }
+
+func verifHas(l []string, n string) bool {
+	for _, x := range l {
+		if x == n {
+			return true
+		}
+	}
+	return false
+}
+
+// verifC14DirConcurrent: DirFs operations of two threads interleaved at every system call (and at
+// every Go synchronisation operation the implementation may use), with the happens-before race
+// check on Go-level state. The results must be explained by some order of the operations that
+// respects what had already returned: a List issued after a Create returned shows the file; of two
+// Creates of one name exactly one wins; a reader racing with AtomicCreate or Delete sees the old or
+// the new content as a whole.
+func verifC14DirConcurrent() {
+	fs, root := verifC13Setup()
+	_ = root
+	old := verifNondetBytes("old", 2)
+	fs.AtomicCreate("d0", "a", old)
+	var wg sync.WaitGroup
+	wg.Add(1)
+	verifKernelPreempt(true)
+	verifRaceDetect(true)
+	switch verifChoose(4) {
+	case 0:
+		var l1, l2 []string
+		go func() {
+			l1 = fs.List("d0")
+			wg.Done()
+		}()
+		f, ok := fs.Create("d0", "x")
+		if ok {
+			fs.Close(f)
+		}
+		l2 = fs.List("d0")
+		wg.Wait()
+		verifAssert("dirconc/list-after-create-shows-the-file", verifHas(l2, "x") && verifHas(l2, "a"))
+		verifAssert("dirconc/concurrent-list-shows-older-files", verifHas(l1, "a"))
+	case 1:
+		var ok1, ok2 bool
+		go func() {
+			var f File
+			f, ok1 = fs.Create("d0", "x")
+			if ok1 {
+				fs.Close(f)
+			}
+			wg.Done()
+		}()
+		var g File
+		g, ok2 = fs.Create("d0", "x")
+		if ok2 {
+			fs.Close(g)
+		}
+		wg.Wait()
+		verifAssert("dirconc/create-exactly-one-wins", ok1 != ok2)
+	case 2:
+		nw := verifNondetBytes("new", 3)
+		var got []byte
+		go func() {
+			r := fs.Open("d0", "a")
+			got = fs.ReadAt(r, 0, 4)
+			fs.Close(r)
+			wg.Done()
+		}()
+		fs.AtomicCreate("d0", "a", nw)
+		wg.Wait()
+		verifAssert("dirconc/reader-sees-old-or-new", verifOr(verifBytesEq(got, old), verifBytesEq(got, nw)))
+	case 3:
+		var got []byte
+		var missing bool
+		go func() {
+			missing = verifTry(func() {
+				r := fs.Open("d0", "a")
+				got = fs.ReadAt(r, 0, 4)
+				fs.Close(r)
+			})
+			wg.Done()
+		}()
+		fs.Delete("d0", "a")
+		wg.Wait()
+		verifAssert("dirconc/reader-sees-old-or-nothing", verifOr(missing, verifBytesEq(got, old)))
+	}
+	verifRaceDetect(false)
+	verifKernelPreempt(false)
+	verifAssert("dirconc/no-data-race", verifRaces() == 0)
+	verifCover("c14/dirconc")
+}
